@@ -100,6 +100,12 @@ CLAIMS["C10"] = dict(text="bounded symbolic model checking: (1) for every expres
                     "FreeParameters compiled and optimised BEFORE binding act, after binding, exactly like the template built on the values, from an "
                     "arbitrary state; (3) a measure / use / re-prepare / re-measure / use script reads the latest outcome of the right mode; use before "
                     "measurement, unbound and unknown parameters raise ParameterError; par_regref_deps is exact", design_ref="5/C10")
+CLAIMS["C17"] = dict(text="bounded symbolic model checking of the numpy-only mesh decompositions: (1) for ARBITRARY complex matrix entries (no unitarity "
+                    "assumed), on every branch (zero entry, swap, generic), the angles returned by nullT, nullTi, nullMZ, nullMZi make the targeted entry "
+                    "of the product with the real T / Ti / mach_zehnder / mach_zehnder_inv exactly zero; T Ti = MZ MZ^-1 = 1, T, M, P unitary and "
+                    "mach_zehnder equal to its documented matrix for all angles; (2) rectangular, rectangular_phase_end and triangular reconstruct every "
+                    "U(2) (explicit 4-angle parametrisation) with a unit-modulus diagonal; (3) a non-unitary 2x2 input is refused by all five meshes",
+                    design_ref="5/C17", note=NOTE + "; partial claim: takagi/williamson/bloch_messiah (LAPACK) and sun_compact are not encodable; end-to-end for the MZ meshes and sizes > 2 are outside (3x3 rectangular in the thorough tier)")
 NA_DEFAULT = "check not built yet in this session (plan: DESIGN.md section 5)"
 NA = {}
 
